@@ -16,6 +16,8 @@ FAMILY_DEFAULTS = {
     "scope0": dict(MaxNodes=4, MaxDepth=3, DepthLimits={8}, LoopLimits={4}, VarLimits={3}, StrMode=False, InitVal=-1),
     "order": dict(MaxNodes=4, MaxDepth=2, DepthLimits={8}, LoopLimits={4}, VarLimits={3}, StrMode=False, InitVal=-1),
     "reuse": dict(MaxNodes=4, MaxDepth=3, DepthLimits={8}, LoopLimits={4}, VarLimits={3}, StrMode=False, InitVal=0),
+    "looplim": dict(MaxNodes=3, MaxDepth=3, DepthLimits={6}, LoopLimits={2}, VarLimits={3}, StrMode=False, InitVal=0),
+    "config": dict(MaxNodes=4, MaxDepth=3, DepthLimits={4}, LoopLimits={2}, VarLimits={3}, StrMode=False, InitVal=0),
     "rng": dict(MaxNodes=4, MaxDepth=3, DepthLimits={8}, LoopLimits={4}, VarLimits={3}, StrMode=False, InitVal=0),
     "var": dict(MaxNodes=3, MaxDepth=2, DepthLimits={6}, LoopLimits={4}, VarLimits={2, 4}, StrMode=True, InitVal=1),
 }
@@ -191,6 +193,10 @@ class Conc:
             if i % 2 == 0:
                 a.append(f'class="rc{i}"')     # classes of the reuse element are inherited by the instance
             return f'<reuse {" ".join(a)}/>{nl}'
+        if k == "config":
+            names = {"dl": "depth-limit", "ll": "loop-limit", "vl": "var-limit"}
+            a = [f'{names[x]}="{v + (1 if (x == "dl" and self.wrap) else 0)}"' for x, v in n["loc"]]
+            return f'<config {" ".join(a)}/>{nl}'
         if k == "specs":
             return f'<specs>{kids}</specs>{nl}'
         raise ValueError(k)
